@@ -56,6 +56,7 @@ class NeedMonad(Exception):
     pass
 
 INT, BOOL, BYTES, INTS = "Int", "Bool", "Bytes", "List Int"
+BYTEARRAY = "bytearray"  # a mutable byte sequence; Lean type Bytes
 DEC = "Decimal"          # an integer-valued decimal.Decimal whose exactness the translator has shown; Lean type Int
 DEC_LIMIT = 10 ** 28     # default context: 28 significant digits
 FLT = "float"            # an integer-valued binary64 float whose exact value the translator knows to be the Int term
@@ -289,8 +290,8 @@ class Fn:
         self.err(e, "expression %s (%s) is not in the subset" % (ast.unparse(e)[:60], type(e).__name__))
 
     def binop(self, node, op, a, b):
-        if isinstance(op, ast.Add) and a.t == BYTES and b.t == BYTES:
-            return V("(%s ++ %s)" % (a.s, b.s), BYTES, n=None if a.n is None or b.n is None else a.n + b.n)
+        if isinstance(op, ast.Add) and a.t in (BYTES, BYTEARRAY) and b.t in (BYTES, BYTEARRAY):
+            return V("(%s ++ %s)" % (a.s, b.s), a.t, n=None if a.n is None or b.n is None else a.n + b.n)
         if isinstance(op, ast.Mult) and a.t == INTS and b.t == INT and a.n == 1:
             if b.lo is None or b.lo < 0:
                 self.err(node, "[c] * n: cannot show n >= 0")
@@ -346,8 +347,12 @@ class Fn:
                 lo = a.lo * b.lo
             return f("(%s * %s)" % (a.s, b.s), lo, hi)
         if isinstance(op, (ast.FloorDiv, ast.Mod)):
-            if b.lo is None or b.lo != b.hi or b.lo == 0:
-                self.err(node, "divisor of // or %% must be a non-zero constant (ZeroDivisionError cannot be excluded): %s" % b.s)
+            if b.lo is None or b.hi is None or b.lo <= 0 <= b.hi:
+                # ZeroDivisionError cannot be excluded: the raising variant
+                r = self.hoist(node, "Py.%s %s %s" % ("floordivE" if isinstance(op, ast.FloorDiv) else "pymodE", a.s, b.s), INT)
+                return r
+            if b.lo != b.hi:
+                self.err(node, "divisor of // or %% must be a constant or an int that may be zero: %s" % b.s)
             c = b.lo
             if isinstance(op, ast.FloorDiv):
                 lo = hi = None
@@ -431,7 +436,7 @@ class Fn:
             return "(%s = true)" % v.s
         if v.t == INT:
             return "(%s ≠ 0)" % v.s
-        if v.t in (BYTES, INTS):
+        if v.t in (BYTES, BYTEARRAY, INTS):
             return "(%s ≠ [])" % v.s
         self.err(e, "truth value of %s" % v.t)
 
@@ -440,6 +445,8 @@ class Fn:
         if sym is None:
             self.err(node, "comparison %s is not in the subset" % type(op).__name__)
         if a.t == INT and b.t == INT:
+            return "(%s %s %s)" % (a.s, sym, b.s)
+        if a.t in (BYTES, BYTEARRAY) and b.t in (BYTES, BYTEARRAY) and sym in ("=", "≠"):
             return "(%s %s %s)" % (a.s, sym, b.s)
         if a.t == b.t and a.t in (BYTES, BOOL) and sym in ("=", "≠"):
             return "(%s %s %s)" % (a.s, sym, b.s)
@@ -499,7 +506,7 @@ class Fn:
         name = f.id if isinstance(f, ast.Name) else None
         if name == "len" and len(e.args) == 1:
             a = self.expr(e.args[0], env)
-            if a.t not in (BYTES, INTS):
+            if a.t not in (BYTES, BYTEARRAY, INTS):
                 self.err(e, "len() of %s" % a.t)
             if a.n is not None:
                 return V("(Py.len %s)" % a.s, INT, a.n, a.n)
@@ -542,11 +549,11 @@ class Fn:
             return V(lit(a.lo ** b.lo), INT, a.lo ** b.lo, a.lo ** b.lo)
         if name in ("bytes", "bytearray") and len(e.args) == 1:
             a = self.expr(e.args[0], env)
-            if a.t == BYTES:
-                return a
+            if a.t in (BYTES, BYTEARRAY):
+                return V(a.s, BYTES if name == "bytes" else BYTEARRAY, n=a.n)
             self.err(e, "%s() of %s" % (name, a.t))
         if name in ("bytes", "bytearray") and not e.args:
-            return V("([] : Bytes)", BYTES, n=0)
+            return V("([] : Bytes)", BYTES if name == "bytes" else BYTEARRAY, n=0)
         if name == "sum" and len(e.args) == 1:
             a = self.expr(e.args[0], env)
             if a.t != INTS:
@@ -575,7 +582,7 @@ class Fn:
             if f.attr == "unpack" and len(e.args) == 2:
                 fmt, n = self.fmt_arg(e, e.args[0], env)
                 b = self.expr(e.args[1], env)
-                if b.t != BYTES:
+                if b.t not in (BYTES, BYTEARRAY):
                     self.err(e, "struct.unpack of %s" % b.t)
                 return self.hoist(e, "Py.structUnpackI %s %s" % (fmt, b.s), INTS, n=n, elo=0)
             if f.attr == "pack" and len(e.args) >= 1:
@@ -693,14 +700,25 @@ class Fn:
             return True
         return False
 
+    def stride_of(self, node, sl, env):
+        """`[A::K]` with constants A >= 0, K >= 1 and no upper bound -> (A, K)"""
+        if sl.upper is not None:
+            self.err(node, "extended slice with an upper bound is not in the subset")
+        a = self.expr(sl.lower, env) if sl.lower is not None else V("0", INT, 0, 0)
+        k = self.expr(sl.step, env)
+        if a.t != INT or k.t != INT or a.lo is None or a.lo != a.hi or a.lo < 0 or k.lo is None or k.lo != k.hi or k.lo < 1:
+            self.err(node, "extended slice [A::K] needs constants A >= 0 and K >= 1")
+        return a.lo, k.lo
+
     def subscript(self, e, env):
         seq = self.expr(e.value, env)
-        if seq.t not in (BYTES, INTS):
+        if seq.t not in (BYTES, BYTEARRAY, INTS):
             self.err(e, "subscript of %s" % seq.t)
         sl = e.slice
         if isinstance(sl, ast.Slice):
             if sl.step is not None:
-                self.err(e, "slice with a step is not in the subset")
+                start, step = self.stride_of(e, sl, env)
+                return V("(Py.getStride %d %d %s)" % (step, start, seq.s), seq.t, elo=seq.elo, ehi=seq.ehi)
             lo = self.expr(sl.lower, env) if sl.lower is not None else V("0", INT, 0, 0)
             if sl.upper is not None:
                 hi = self.expr(sl.upper, env)
@@ -713,7 +731,7 @@ class Fn:
         i = self.expr(sl, env)
         if i.t != INT:
             self.err(e, "index of type %s" % i.t)
-        if seq.t == BYTES:
+        if seq.t in (BYTES, BYTEARRAY):
             if self.safe_index(seq, e.value, i):
                 return V("(Py.byteAt %s %s)" % (seq.s, i.s), INT, 0, 255)
             return self.hoist(e, "Py.getByte %s %s" % (seq.s, i.s), INT, lo=0, hi=255)
@@ -741,6 +759,8 @@ class Fn:
     def ltype(self, t):
         if t in (DEC, FLT):
             return "Int"
+        if t == BYTEARRAY:
+            return "Bytes"
         if t.startswith("rec:"):
             return " × ".join(["Int"] * len(t.split(":")[2].split(",")))
         return t
@@ -872,20 +892,25 @@ class Fn:
         if isinstance(target, (ast.Tuple, ast.List)):
             if op is not None:
                 self.err(s, "augmented tuple assignment")
-            keys = [self.target_key(t, env) for t in target.elts]
             if isinstance(value, (ast.Tuple, ast.List)):
-                if len(value.elts) != len(keys):
+                if len(value.elts) != len(target.elts):
                     self.err(s, "tuple assignment of different lengths")
                 vals = [self.expr(x, env) for x in value.elts]
                 text = ""
                 tmps = []
-                for v in vals:           # simultaneous: all right-hand sides are evaluated first
+                for v in vals:           # simultaneous: all right-hand sides are evaluated first …
                     tn = self.tmp()
                     tmps.append(tn)
                     text += "let %s : %s := %s\n" % (tn, self.ltype(v.t), v.s)
-                for key, v, tn in zip(keys, vals, tmps):
-                    text += self.bind(key, V(tn, v.t, v.lo, v.hi, v.n, v.ltlen, v.elo, v.ehi), env)
-                return self.flush(text) + self.block(rest, env, k)
+                text = self.flush(text)
+                for t, v, tn in zip(target.elts, vals, tmps):      # … then the targets are stored left to right
+                    tv = V(tn, v.t, v.lo, v.hi, v.n, v.ltlen, v.elo, v.ehi)
+                    if isinstance(t, ast.Subscript) and isinstance(t.slice, ast.Slice):
+                        text += self.store_stride(s, t, tv, env)
+                    else:
+                        text += self.bind(self.target_key(t, env), tv, env)
+                return text + self.block(rest, env, k)
+            keys = [self.target_key(t, env) for t in target.elts]
             v = self.expr(value, env)
             if v.t != INTS or v.n is None:
                 self.err(s, "tuple assignment from a sequence whose length is not known statically")
@@ -900,10 +925,15 @@ class Fn:
             if key not in env:
                 self.err(s, "item assignment to unbound %s" % key)
             seq = env[key]
+            if isinstance(target.slice, ast.Slice):
+                if op is not None:
+                    self.err(s, "augmented slice assignment is not in the subset")
+                v = self.expr(value, env)
+                text = self.flush("")
+                text += self.store_stride(s, target, v, env)
+                return text + self.block(rest, env, k)
             if seq.t != INTS:
                 self.err(s, "item assignment on %s is not in the subset" % seq.t)
-            if isinstance(target.slice, ast.Slice):
-                self.err(s, "slice assignment is not in the subset")
             i = self.expr(target.slice, env)
             v = self.expr(value, env)
             if op is not None:
@@ -926,7 +956,7 @@ class Fn:
             v = self.binop(s, op, env[key], v)
         if v.t == "rec":
             self.err(s, "assigning an object is not in the subset")
-        if key in env and env[key].t != v.t:
+        if key in env and self.ltype(env[key].t) != self.ltype(v.t):
             self.err(s, "variable %s changes type from %s to %s" % (key, env[key].t, v.t))
         # a sequence that is re-bound invalidates `index < len(seq)` facts about it
         for kk, vv in list(env.items()):
@@ -934,6 +964,28 @@ class Fn:
                 env[kk] = V(vv.s, vv.t, vv.lo, vv.hi, vv.n, vv.ltlen - {key}, vv.elo, vv.ehi, vv.rec)
         text = self.bind(key, v, env)
         return self.flush(text) + self.block(rest, env, k)
+
+    def store_stride(self, s, target, v, env):
+        """`seq[A::K] = v` on a bytearray / int list variable, K >= 2: the raising `Py.strideSetE`"""
+        key = self.target_key(target.value, env)
+        if key not in env:
+            self.err(s, "slice assignment to unbound %s" % key)
+        seq = env[key]
+        if seq.t == BYTES:
+            self.err(s, "slice assignment on an immutable bytes object (TypeError)")
+        if seq.t not in (BYTEARRAY, INTS):
+            self.err(s, "slice assignment on %s is not in the subset" % seq.t)
+        if not isinstance(target.slice, ast.Slice) or target.slice.step is None:
+            self.err(s, "plain slice assignment (it can change the length) is not in the subset")
+        start, step = self.stride_of(s, target.slice, env)
+        if step < 2:
+            self.err(s, "slice assignment with step 1 (it can change the length) is not in the subset")
+        ok = (seq.t == BYTEARRAY and v.t in (BYTES, BYTEARRAY)) or (seq.t == INTS and v.t == INTS)
+        if not ok:
+            self.err(s, "slice assignment of %s into %s is not in the subset" % (v.t, seq.t))
+        r = self.hoist(s, "Py.strideSetE %s %d %d %s" % (seq.s, start, step, v.s), seq.t, n=seq.n, elo=_min(seq.elo, v.elo),
+                       ehi=_max(seq.ehi, v.ehi))
+        return self.flush(self.bind(key, r, env))
 
     def if_stmt(self, s, rest, env, k):
         c = self.cond(s.test, env)
@@ -1050,7 +1102,7 @@ class Fn:
                 lv = V(lname(var), INT, args[0].lo, None if args[1].hi is None else args[1].hi - 1)
         else:
             seq = self.expr(it, env)
-            if seq.t == BYTES:
+            if seq.t in (BYTES, BYTEARRAY):
                 iters = "(Py.bytesInts %s)" % seq.s
                 lv = V(lname(var), INT, 0, 255)
             elif seq.t == INTS:
